@@ -244,6 +244,11 @@ pub fn canonical_cycle(c: &[u32]) -> Vec<u32> {
 /// Planar grid of `nx` x `ny` cells in the z = 0 plane, two triangles per kept cell with
 /// alternating diagonals, vertices jittered by `jitter` (fraction of the cell size).
 pub fn grid(rng: &mut Rng, nx: usize, ny: usize, cell: f64, jitter: f64, keep: &dyn Fn(usize, usize) -> bool) -> M {
+    grid_diag(rng, nx, ny, cell, jitter, keep, false)
+}
+
+/// As `grid`, optionally choosing the diagonal of every cell at random (varied vertex valence).
+pub fn grid_diag(rng: &mut Rng, nx: usize, ny: usize, cell: f64, jitter: f64, keep: &dyn Fn(usize, usize) -> bool, random_diag: bool) -> M {
     let mut v = Vec::new();
     for j in 0..=ny {
         for i in 0..=nx {
@@ -260,7 +265,8 @@ pub fn grid(rng: &mut Rng, nx: usize, ny: usize, cell: f64, jitter: f64, keep: &
                 continue;
             }
             let (a, b, c, d) = (id(i, j), id(i + 1, j), id(i + 1, j + 1), id(i, j + 1));
-            if (i + j) % 2 == 0 {
+            let first = if random_diag { rng.chance(0.5) } else { (i + j) % 2 == 0 };
+            if first {
                 f.push([a, b, c]);
                 f.push([a, c, d]);
             } else {
